@@ -156,3 +156,12 @@ pub(crate) fn panics_iff<R>(must: bool, f: impl FnOnce() -> R) -> Option<R> {
         }
     }
 }
+
+// Re-exports for harnesses that live outside `rt` (sync::atomic::verif).
+pub(crate) fn mk_exec(n: usize, max_branches: usize, preemption_bound: Option<usize>) -> super::Execution {
+    super::execution::verif::mk_exec(n, max_branches, preemption_bound)
+}
+
+pub(crate) fn enter<R>(e: &mut super::Execution, f: impl FnOnce() -> R) -> R {
+    super::scheduler::verif::enter(e, f)
+}
